@@ -285,10 +285,21 @@ fn encode_sub(thorough: bool) -> Vec<Sub> {
         }
         o
     }));
-    v.push(Sub::new("encode/lengths", 301 * 3, "every length 0..=300 x content classes {00.., ff.., counting}", move |idx, describe| {
+    // every length to 1600 (an encoder that works in blocks or through a buffer fails at *some* length), then every
+    // length within 4 of every multiple of 1024 up to 20 KiB (thorough: every length to 20 KiB)
+    let mut lens: Vec<usize> = (0..=1600).collect();
+    if thorough {
+        lens.extend(1601..=20_484);
+    } else {
+        for k in 2..=20usize {
+            lens.extend(k * 1024 - 4..=k * 1024 + 4);
+        }
+    }
+    let nl = lens.len() as u64;
+    v.push(Sub::new("encode/lengths", nl * 3, "every length 0..=1600 and every length within 4 of every multiple of 1024 up to 20 KiB (thorough: every length to 20484) x content classes {00.., ff.., counting}", move |idx, describe| {
         let mut o = Outcome::new();
         o.evals = 0;
-        let len = (idx / 3) as usize;
+        let len = lens[(idx / 3) as usize];
         let bytes: Vec<u8> = match idx % 3 {
             0 => vec![0; len],
             1 => vec![0xff; len],
